@@ -73,6 +73,11 @@ CHECKS = {
    text="RESTRICTED CLAIM. History invariants over every event of simulated runs of four workloads (segmented dialogues of all protocols, hostile inputs to all services, a payload sweep cycling through all 256 single bytes, 2-byte strings, invalid UTF-8/NUL/control bytes and up to 64 KiB through echo/counterstrike/memcached, and UDP datagrams through the raw listener's generic handler): every event marshals to JSON and the JSON has every key of the event (modulo encoding/json's UTF-8 coercion); payload-hex decodes to exactly the bytes of payload and payload-length is their count; recorded raw payloads are bytes that the simulated transport really delivered on that connection; source/destination addresses and ports equal the connection's as the simulated kernel created it. NOT covered: MergeFrom keeps / CopyFrom overwrites and the exhaustive enumeration of event.Payload as an API - pure functions with no schedule, clock or fault in them.",
    ref="§3 C05", tech=TECH + "history invariants over all events of simulated runs against the transport's ground truth (restricted claim)",
    note="The MergeFrom/CopyFrom clause and exhaustive 2-byte enumeration are not decided (not simulation targets); a service recording only part of a datagram (its buffer size) is accepted as long as the bytes are the datagram's."),
+ "C18": dict(
+   level="fault_enumeration",
+   text="Fault enumeration over restart histories: every boot is a separate OS process that runs the real start-up path on a shared data directory (server.New with WithDataDir/WithToken, constructors of the enabled storage-backed services, agent key pair) and then boots Run in a bubble, where the identity is observed through the public surface (token on a heartbeat event, SSH host key seen by a real ssh client, certificates presented after FTP AUTH TLS / SMTP STARTTLS / LDAP StartTLS, agent public key). The first boot of every second history is killed (os.Exit, no deferred functions) at one of 19 named crash points - around the token file's creation and write and before/after every store write of every key and certificate - in rotation, so each quick batch enumerates all of them; other histories plant the token-file states a kill can leave (absent, empty, proper prefixes). Oracle: every completed boot reports a well-formed token and parsable keys/certificates, and once a completed boot has reported an item, every later one reports the same.",
+   ref="§3 C18", tech="deterministic simulation with fault injection: crash-point enumeration across separate boot processes on one data directory (overlay-inserted named crash points, planted torn token-file states), identity observed by in-bubble ssh/TLS clients",
+   note="Process kill only (no page-cache loss or torn badger writes); crash points are the instants around each durable write, a superset of what a kill at a random instant can expose at those files."),
 }
 NA = {
  "C17": "pure functions of a byte buffer (decoder methods, ipp decode/encode): no schedule, clock, fault or interleaving to simulate (DESIGN §4)",
